@@ -40,7 +40,7 @@ func lenClass(n int) string {
 }
 
 func checkC10(r *mon.Run) {
-	r.Rule = "descriptors built by the independent encoder: any 16 timestamp bytes, certificate-data length in {0,1,7,8,255,256,1980,65535,65536} ∪ random, any type GUID, payload 0..4 KiB; sbvarsign fixtures PK/KEK/db.auth; library-produced descriptors; bare WIN_CERTIFICATEs of types 0x0002/0x0EF0/0x0EF1; through the io.Reader functions and Unmarshal(*bytes.Buffer). Oracle: reader position == 16+dwLength (dwLength for a bare certificate), remaining bytes == payload, every field equal, re-encoding == consumed bytes, decode(encode(v)) == v. distinct = (length class, cert type, payload length class, API)"
+	r.Rule = "descriptors built by the independent encoder: any 16 timestamp bytes, certificate-data length in {0,1,7,8,255,256,1980,65535,65536} ∪ random, any type GUID, payload 0..4 KiB; certificate data that is a complete DER SEQUENCE followed by 1..9 zero or random bytes; sbvarsign fixtures PK/KEK/db.auth; library-produced descriptors; bare WIN_CERTIFICATEs of types 0x0002/0x0EF0/0x0EF1; through the io.Reader functions and Unmarshal(*bytes.Buffer). Oracle: reader position == 16+dwLength (dwLength for a bare certificate), remaining bytes == payload, every field equal, re-encoding == consumed bytes, decode(encode(v)) == v. distinct = (length class, cert type, payload length class, API)"
 	r.Assume("reference layout internal/refauth2 (positional, from the UEFI spec); anchored on the sbvarsign fixtures")
 	type job struct {
 		buf     []byte // descriptor ‖ payload
